@@ -3,7 +3,7 @@ finite case analyses.  No repository code runs; anything outside the modelled fr
 import ast
 
 UNK = 'UNK?'
-STR_METHODS = ('strip', 'lstrip', 'rstrip', 'split', 'rsplit', 'replace', 'lower', 'upper', 'startswith', 'endswith', 'join', 'ljust', 'rjust', 'zfill')
+STR_METHODS = ('strip', 'lstrip', 'rstrip', 'split', 'rsplit', 'replace', 'lower', 'upper', 'startswith', 'endswith', 'join', 'ljust', 'rjust', 'zfill', 'isdigit', 'isalpha', 'isnumeric', 'isdecimal', 'isalnum')
 
 
 def dotted_name(n):
@@ -53,6 +53,8 @@ def _ev(e, env, hook):
                 return a * b
             if isinstance(e.op, ast.FloorDiv):
                 return a // b
+            if isinstance(e.op, ast.Div):
+                return a / b
             if isinstance(e.op, ast.Mod):
                 return a % b
         except Exception:
